@@ -14,7 +14,7 @@ import warnings
 from sim import kernel, scenes, seams, threads
 from sim.census import Census
 from sim.digest import chunk_parts, diff_parts
-from sim.minimise import ddmin
+from sim.minimise import ddmin, shrink_history
 
 PROP = 'C13'
 STAGES = ['construct', 'FS', 'FG', 'FL', 'MM']
@@ -125,44 +125,45 @@ def _line_violation(jobs, schedule, bad, strategy, clock_seed):
                         f'their isolated run in {changed[:12]}'}
 
 
-def minimise_line(jobs, schedule, strategy, clock_seed, budget=40):
-    """Drop workers, then delta-debug the run-length schedule, keeping 'some worker differs
-    from its isolated run'."""
+def shrink_line(vio, evaluate, budget=45):
+    """Drop workers, then delta-debug the run-length schedule, keeping 'some worker differs from
+    its isolated run'. Every candidate is evaluated in a fresh fork."""
     left = [budget]
 
-    def fails(jbs, sch):
+    def test(case):
         if left[0] <= 0:
             return None
         left[0] -= 1
-        refs = references(jbs, clock_seed)
-        _, bad = simulate(jbs, threads.Replay(sch), refs, clock_seed=clock_seed)
-        return bad or None
-    best = (jobs, schedule, fails(jobs, schedule))
-    if not best[2]:
+        v = evaluate(case)
+        return v if v is not None and v['clause'] == 'isolation-mismatch' else None
+    case = dict(vio['case'])
+    best = test(case)
+    if best is None:
         return None
-    # drop workers
-    if len(jobs) > 2:
-        for drop in range(len(jobs)):
-            keep = [i for i in range(len(best[0])) if i != drop]
-            if len(keep) < 2 or drop >= len(best[0]):
-                continue
+    if len(case['jobs']) > 2:
+        for drop in range(len(case['jobs'])):
+            keep = [i for i in range(len(case['jobs'])) if i != drop]
             remap = {old: new for new, old in enumerate(keep)}
-            jbs = [best[0][i] for i in keep]
-            sch = [[remap[w], n] for w, n in best[1] if w in remap]
-            bad = fails(jbs, sch)
-            if bad:
-                best = (jbs, sch, bad)
+            cand = dict(case, jobs=[case['jobs'][i] for i in keep],
+                        schedule=[[remap[w], n] for w, n in case['schedule'] if w in remap])
+            v = test(cand)
+            if v is not None:
+                case, best = cand, v
                 break
-    jbs = best[0]
 
     def seg_fails(sub):
-        return bool(fails(jbs, sub))
-    small = ddmin(best[1], seg_fails, max_runs=max(0, left[0]))
-    left[0] = 2
-    bad = fails(jbs, small)
-    if bad:
-        best = (jbs, small, bad)
-    return _line_violation(best[0], best[1], best[2], strategy, clock_seed)
+        return test(dict(case, schedule=sub)) is not None
+    small = ddmin(case['schedule'], seg_fails, max_runs=max(0, left[0] - 1))
+    left[0] = max(left[0], 1)
+    v = test(dict(case, schedule=small))
+    return v if v is not None else best
+
+
+def shrink(vio, evaluate):
+    if vio['case']['kind'] == 'line':
+        return shrink_line(vio, evaluate)
+    return shrink_history(vio, evaluate, ops_key='order', max_runs=40,
+                          same=lambda v: v is not None and v['clause'] == 'isolation-mismatch')
 
 
 SCHEDULES_PER_JOBSET = 3
@@ -221,10 +222,7 @@ def run_line(seed, out, bump):
                                    'isolated_line_events': [r[1] for r in refs],
                                    'switches': sim.switches, 'schedule_head': schedule[:8]})
         if bad:
-            vio = minimise_line(jobs, schedule, sched.name, seed + k)
-            if vio is None:   # recorded schedule does not reproduce: harness bug by definition
-                raise kernel.HarnessError(f'line-level mismatch not reproducible by replay: {bad}')
-            out['violations'].append(vio)
+            out['violations'].append(_line_violation(jobs, schedule, bad, sched.name, seed + k))
             return
 
 
@@ -301,19 +299,6 @@ def _stage_violation(jobs, order, bad):
                         f'{changed[:12]}'}
 
 
-def minimise_stage(jobs, order):
-    def fails(sub):
-        trajs = [stage_trajectory(s, i) for i, s in enumerate(jobs)]
-        return bool(run_merge(jobs, sub, trajs))
-    small = ddmin(list(order), fails, max_runs=40)
-    trajs = [stage_trajectory(s, i) for i, s in enumerate(jobs)]
-    bad = run_merge(jobs, small, trajs)
-    if not bad:
-        small = list(order)
-        bad = run_merge(jobs, small, trajs)
-    return _stage_violation(jobs, small, bad)
-
-
 def run_stage(run, out, bump):
     rng_scene = kernel.stream(run['seed'], 'scene')
     n = run['n_chunks']
@@ -355,7 +340,7 @@ def run_stage(run, out, bump):
                                                'prms': s['prms']} for s in jobs]})
         if bad and not reported:
             reported = True
-            out['violations'].append(minimise_stage(jobs, order))
+            out['violations'].append(_stage_violation(jobs, order, bad))
 
 
 # ------------------------------------------------------------------------------------------
